@@ -296,6 +296,7 @@ def run_property(prop, tier, seed, t0):
     samples = []
     assumptions = set(spec.get("assumptions", []))
     errors = []
+    inapplicable = []
 
     proof_ids = [fid for fid, c in C.CONTRACTS.items() if prop in c.serves and not c.trusted and not c.bounded_only]
     spec = dict(spec)
@@ -304,7 +305,16 @@ def run_property(prop, tier, seed, t0):
         rec, eng, res = verify_contract(fid, tier, timeout_s, prop)
         functions.append(rec)
         if rec["error"]:
-            errors.append("%s: %s" % (fid, rec["error"]))
+            base = baseline.get(fid, {})
+            changed = bool(base) and not base.get("error") and base.get("ast") and (
+                (rec.get("ast_hash") and base["ast"] != rec["ast_hash"]) or str(rec["error"]).startswith("missing"))
+            if changed and not str(rec["error"]).startswith("vacuous"):
+                # the function was rewritten since the baseline and the sidecar (loop ordinals, locals named in invariants,
+                # program points) no longer applies to it: nothing is proved for it and nothing is refuted - the bounded
+                # checks and enumerations of the property decide.  Never a violation, and not an error of the machinery.
+                inapplicable.append("%s: %s" % (fid, rec["error"]))
+            else:
+                errors.append("%s: %s" % (fid, rec["error"]))
         for a in rec["assumptions"]:
             assumptions.add(a)
         if rec["n_vcs"] + (rec.get("trivial") or 0) == 0 and not rec["error"]:
@@ -478,6 +488,7 @@ def run_property(prop, tier, seed, t0):
         samples=samples + [dict(bounded_input=s) for b in bounded for s in b["samples"][:1]] or [dict(note="no sample")],
         exhaustive=all(b.get("exhaustive", False) for b in bounded) if bounded else False,
         checker_errors=errors,
+        sidecar_inapplicable=inapplicable,
     )
     ev = dict(property_id=prop, tier=tier, seed=seed, level=level, coverage=cov, assumptions=sorted(assumptions),
               wall_s=round(wall, 2), violations=len(violations))
@@ -489,6 +500,8 @@ def run_property(prop, tier, seed, t0):
         prop, tier, n_proved, n_ob, len(undecided), len(bounded), sum(b["evaluations"] for b in bounded), len(enums), wall))
     for k in known_hit.values():
         print("KNOWN-FINDING: property=%s %s %s" % (prop, k["id"], k["what"]))
+    for e in inapplicable:
+        print("NOT-VERIFIED property=%s (function changed, sidecar contract no longer applies; decided by the bounded checks only) %s" % (prop, e))
     shown = {}
     for oid, path, tail in violations:
         shown[oid] = shown.get(oid, 0) + 1
